@@ -117,13 +117,26 @@ def impl(case):
                     head = buf[:i].decode("latin-1").split("\r\n")
                     hdrs = [tuple(l.split(": ", 1)) for l in head[1:] if ": " in l]
                     cl = 0
+                    te = False
                     for k, v in hdrs:
                         if k.lower() == "content-length":
                             cl = int(v)
-                    if len(buf) < i + 4 + cl:
-                        return
-                    body = buf[i + 4:i + 4 + cl]
-                    del peer.inbox[:i + 4 + cl]
+                        if k.lower() == "transfer-encoding" and "chunked" in v.lower():
+                            te = True
+                    if te:
+                        # a chunked request body: up to and including the last-chunk line (the bodies here hold no such bytes themselves)
+                        rest = buf[i + 4:]
+                        j = 0 if rest.startswith(b"0\r\n\r\n") else rest.find(b"\r\n0\r\n\r\n")
+                        if j < 0:
+                            return
+                        cl = (5 if j == 0 and rest.startswith(b"0\r\n\r\n") else j + 7)
+                        body = b"" if cl == 5 else rest[:j]
+                        del peer.inbox[:i + 4 + cl]
+                    else:
+                        if len(buf) < i + 4 + cl:
+                            return
+                        body = buf[i + 4:i + 4 + cl]
+                        del peer.inbox[:i + 4 + cl]
                     method, tgt, _ = head[0].split(" ", 2)
                     if (tgt.startswith("http://") or tgt.startswith("https://")) and case["kind"] == "pool":
                         # a bare pool sends absolute-form targets to its own host
@@ -160,7 +173,8 @@ def impl(case):
             return Peer(on_data)
 
     net = N()
-    watched = {k.lower() for k, v in case["headers"]} | {"content-type", "content-encoding", "content-language", "content-location", "digest", "last-modified"}
+    watched = {k.lower() for k, v in case["headers"]} | {"content-type", "content-encoding", "content-language", "content-location", "digest", "last-modified",
+                                                         "transfer-encoding"}
     kw = {}
     if case["hkind"] == "dict":
         kw["headers"] = dict(case["headers"])
@@ -176,6 +190,8 @@ def impl(case):
         kw["retries"] = None          # retries=None passed explicitly: the same as not passing it
     poolp = build_policy(case["pool"])
     body = b"payload" if case["body"] else None
+    if case.get("chunked"):
+        kw["chunked"] = True
     with installed(net):
         class PlainHttps(HTTPConnectionPool):
             scheme = "https"
@@ -208,6 +224,11 @@ def impl(case):
     return [enc_log, out]
 
 
+def in_model_domain(case):
+    """the model knows requests with and without a body, not how the body is framed: a body sent chunked is judged by the oracle only"""
+    return not case.get("chunked")
+
+
 # ---------------------------------------------------------------- oracle
 def policy_in_effect(case):
     """request ?? pool/manager ?? default"""
@@ -233,7 +254,7 @@ def budget_of(p):
     return (min(cands) if cands else None), r.get("raise_on_redirect", True), False
 
 
-CONTENT = {"content-encoding", "content-language", "content-location", "content-type", "content-length", "digest", "last-modified"}
+CONTENT = {"content-encoding", "content-language", "content-location", "content-type", "content-length", "digest", "last-modified", "transfer-encoding"}
 
 
 def oracle(case, obs):
@@ -399,7 +420,7 @@ def one_case(rng, kind=None):
         headers.append(["Content-Type", "text/plain"])
     return {"kind": kind, "redirect": rng.random() < 0.9, "assert_same_host": kind == "pool" and rng.random() < 0.8,
             "start": start, "method": method, "body": body, "headers": headers, "hkind": rng.choice(["dict", "hd", "default"]) if kind != "pool" else rng.choice(["dict", "hd"]),
-            "kw": kw, "pool": pool, "script": make_chain(rng, kind, start)}
+            "kw": kw, "pool": pool, "script": make_chain(rng, kind, start), "explicit_none": kw[0] == "none" and rng.random() < 0.3}
 
 
 def cases(rng, tier):
@@ -421,6 +442,10 @@ def cases(rng, tier):
                 out.append(c)
                 c2 = dict(c); c2["redirect"] = False
                 out.append(c2)
+                if place == "pool":
+                    out.append(dict(c, explicit_none=True))      # retries=None passed explicitly at the request
+                if p[0] in ("none", "int") and place == "kw":
+                    out.append(dict(c, chunked=True))             # the body sent chunked: after a 303 nothing of that may remain
     return out
 
 
